@@ -128,6 +128,39 @@ def check_spec(label, spec):
                         % ircases.path_class(d),
                         "%s: saved, edited, saved again: written vs "
                         "schema-expected %s" % (label, d)))
+            continue
+        # CFG nodes replaced between two saves (the old ones freed, so that
+        # new objects may take their addresses): the vertex list must name
+        # exactly the current CFG nodes
+        if len(x.modules) and (label == "base" or label.endswith("0/v0")
+                               or label.startswith("large/")):
+            try:
+                import gc
+
+                m0 = x.modules[0]
+                old = [g.ProxyBlock(module=m0) for _ in range(64)]
+                x.save_protobuf_file(io.BytesIO())
+                for p_ in old:
+                    m0.proxies.discard(p_)
+                del old, p_
+                gc.collect()
+                new = [g.ProxyBlock(module=m0) for _ in range(64)]
+                buf = io.BytesIO()
+                x.save_protobuf_file(buf)
+                m3 = IR_pb2.IR()
+                m3.ParseFromString(buf.getvalue()[8:])
+                got = sorted(bytes(v_) for v_ in m3.cfg.vertices)
+                want_v = sorted(n_.uuid.bytes for n_ in x.cfg_nodes)
+                if got != want_v:
+                    out.append(("C02/writer-field:.cfg.vertices:after-"
+                                "replacing-cfg-nodes",
+                                "%s: %d vertices written, %d CFG nodes; %d "
+                                "stale" % (label, len(got), len(want_v),
+                                           len(set(got) - set(want_v)))))
+                del new
+            except Exception as e:  # noqa
+                out.append(("C02/third-save-raises:%s" % type(e).__name__,
+                            "%s: %r" % (label, e)))
     # ---------------- reader direction
     want_snap = irgen.expected_snapshot(spec, PV)
     for tw in TWEAKS:
